@@ -598,7 +598,7 @@ def fam_query_numbers():
         '&group_policy=isolate', 'resources=VCPU:%s&resources_X=VCPU:1',
     ]
     values = ['$sym', '0', '-1', str(MAXINT), str(MAXINT * 4), '1.5', '',
-              '00', '+1', '1e3']
+              '00', '+1', '1e3', '9' * 5000, '1' + '0' * 4400]
     paths_ = ['/allocation_candidates', '/resource_providers']
 
     def path(ctx):
